@@ -23,7 +23,7 @@ Qed.
 Lemma new_minavg_ceil minavg s nl :
   0 < nl -> new_minavg wx minavg s nl * nl >= minavg * (cs_num s + nl) - cs_tva s.
 Proof.
-  intros Hn. unfold new_minavg, wx. set (need := minavg * (cs_num s + nl) - cs_tva s).
+  intros Hn. unfold new_minavg, wx. lits. set (need := minavg * (cs_num s + nl) - cs_tva s).
   pose proof (Z.quot_rem' need nl) as Hqr.
   destruct (Z.ltb_spec 0 need) as [Hpos|Hneg].
   - pose proof (Z.rem_bound_pos need nl ltac:(lia) Hn) as Hb.
@@ -91,7 +91,7 @@ Lemma extend_spec maxin mc minavg target : forall lows s,
   /\ exists sub rest, cs_list (extend wx maxin mc minavg target lows s) = cs_list s ++ sub
                       /\ Permutation (sub ++ rest) lows.
 Proof.
-  induction lows as [|x t IH]; intros s Hpos Hinv; cbn [extend].
+  induction lows as [|x t IH]; intros s Hpos Hinv; cbn [extend]; lits.
   - split; [exact Hinv|]. exists [], []. rewrite app_nil_r. split; reflexivity.
   - inversion Hpos as [|? ? Hx Ht]; subst.
     assert (Hskip : forall s0, ext_inv maxin mc minavg target s0 -> cs_list s0 = cs_list s ->
@@ -140,9 +140,10 @@ Lemma topup_some rec maxin mc minavg target cutoff low hi : forall k numlow r,
        /\ rec nl mc (new_minavg wx minavg (new_coinset wx hi) nl) (target - sumv hi) low = (br, Ok lowsel)
        /\ r = (BrTopUp br, Ok (fold_left (fun s c => push wx c s) (cs_list lowsel) (new_coinset wx hi))).
 Proof.
-  induction k as [|k IH]; intros numlow r Hne H; cbn [topup] in H; [discriminate|].
+  induction k as [|k IH]; intros numlow r Hne H; cbn [topup] in H; [discriminate|]. rewrite lit_topup_slack_eq in H.
   destruct ((numlow <=? cutoff) && (numlow + (Z.of_nat (length hi) - 1) + 1 <=? maxin)) eqn:Econd; [|discriminate].
   apply andb_true_iff in Econd as [_ Emax].
+  destruct (Z.eqb_spec numlow 0) as [Hz|Hnz]; [left; exists 8%N; injection H as <-; reflexivity|].
   assert (Hh : 1 <= Z.of_nat (length hi)) by (destruct hi; [congruence|cbn [length]; lia]).
   rewrite new_coinset_num in H.
   replace (Z.of_nat (length hi) + numlow >? numlow) with true in H by lia.
@@ -217,6 +218,7 @@ Section MinPrio.
       mp_valid maxin mc minavg target (low ++ hi_acc ++ rest) s.
   Proof.
     intros Hlow0 Hrec. induction rest as [|x rest IH]; intros hi_acc br s Hhi Hhi0 H; cbn [outer] in H; [discriminate|].
+    rewrite lit_numlow_start_eq in H.
     set (hi := hi_acc ++ [x]) in *.
     assert (Eapp : hi_acc ++ x :: rest = hi ++ rest) by (subst hi; rewrite <- app_assoc; reflexivity).
     rewrite Eapp in *.
@@ -290,15 +292,16 @@ Definition no_panic (r : branch * res coinset) : Prop := match snd r with Panic 
 
 Lemma topup_no_panic rec maxin mc minavg target cutoff low hi :
   (forall a b c d, no_panic (rec a b c d low)) ->
-  forall k numlow r, topup wx rec maxin mc minavg target cutoff low hi k numlow = Some r -> no_panic r.
+  forall k numlow r, 1 <= numlow -> topup wx rec maxin mc minavg target cutoff low hi k numlow = Some r -> no_panic r.
 Proof.
-  intros Hrec. induction k as [|k IH]; intros numlow r H; cbn [topup] in H; [discriminate|].
+  intros Hrec. induction k as [|k IH]; intros numlow r Hnl H; cbn [topup] in H; [discriminate|].
   destruct ((numlow <=? cutoff) && _); [|discriminate].
+  destruct (Z.eqb_spec numlow 0) as [Hz|_]; [lia|].
   match type of H with context [rec ?a ?b ?c ?d low] => specialize (Hrec a b c d); destruct (rec a b c d low) as [br rr] end.
   destruct rr as [ls|e|p]; cbn in Hrec.
   - assert (Hr : exists x, r = (BrTopUp br, Ok x)) by (destruct br; injection H as <-; eexists; reflexivity).
     destruct Hr as [x ->]. exact I.
-  - apply (IH (numlow + 1)). destruct br; exact H.
+  - apply (IH (numlow + 1)); [lia|]. destruct br; exact H.
   - destruct Hrec.
 Qed.
 
@@ -310,10 +313,10 @@ Section Fuel.
     (forall a b c d, no_panic (rec a b c d low)) ->
     forall rest hi_acc, no_panic (outer wx sort_by rec maxin mc minavg target cutoff low hi_acc rest).
   Proof.
-    intros Hrec. induction rest as [|x rest IH]; intros hi_acc; cbn [outer]; [exact I|].
+    intros Hrec. induction rest as [|x rest IH]; intros hi_acc; cbn [outer]; [exact I|]. rewrite lit_numlow_start_eq.
     destruct (min_number wx sort_by maxin mc target (hi_acc ++ [x])); [exact I| |];
       (destruct (topup wx rec maxin mc minavg target cutoff low (hi_acc ++ [x]) (Z.to_nat cutoff) 1) as [r|] eqn:Et;
-       [eapply topup_no_panic; eassumption|apply IH]).
+       [eapply (topup_no_panic _ _ _ _ _ _ _ _ Hrec _ 1); [lia|eassumption]|apply IH]).
   Qed.
 
   Theorem minprio_fuel_suffices : forall fuel maxin mc minavg target coins,
@@ -414,6 +417,7 @@ Lemma topup_old_all rec rec' mx mc ma tg cutoff low hi :
 Proof.
   intros Hrec. induction k as [|k IH]; intros nl; cbn [topup topup_old fx_bound]; [reflexivity|].
   destruct ((nl <=? cutoff) && _); [|reflexivity].
+  destruct (nl =? 0); [reflexivity|].
   unfold new_minavg_old. cbn [fx_round]. rewrite Hrec.
   match goal with |- context [rec' ?a ?b ?c ?d low] => destruct (rec' a b c d low) as [br rr] end.
   destruct rr; [reflexivity| |reflexivity]. destruct br; apply IH.
